@@ -51,6 +51,11 @@ func runC13(c *Ctx, idx int) {
 	// content that the loggers print: very long image sources (signed CDN URLs, data: URIs)
 	long := strings.Repeat("sig0123456789abcdef", 12+r.Intn(20))
 	src = strings.Replace(src, "</body>", `<p>`+fillerWords(r, 40)+`</p><img src="/cdn/img.png?token=`+long+`" width="640" height="480"><p>`+fillerWords(r, 30)+`</p><img data-src="data:image/gif,`+long+`"><p>`+fillerWords(r, 30)+`</p></body>`, 1)
+	if idx%2 == 0 {
+		// link texts laid out over several lines, as long as the prev/next scorer accepts give or take a character
+		// (what a logger prints on one line and what is scored are the same text)
+		src = strings.Replace(src, "</body>", `<p><a href="/story/alpha/page/3">`+brLabel(r, "next")+`</a> <a href="/story/alpha/page/1">`+brLabel(r, "previous")+`</a></p></body>`, 1)
+	}
 	doc := parseHTML(src)
 	pageStr := pg.PageURL
 	if idx%4 == 1 {
